@@ -22,6 +22,11 @@ CHECKS = {
    text="TLC checks AtMostOnce/OnlyFallThrough/NotClosedBeforeDelivery/ClosedWhenDone/NeverBoth/NoReuseWhileReferenced and the liveness property Drain (under fairness) on the code-shaped model of listener.go loop/handle/pipeConnection/Accept/Close with the buffer pool, for three connection mixes and channel capacity 1; the real ListenerWrapper (provisioned from JSON) runs around a scripted listener for a TLC-enumerated grid (connection mixes x consumer fast/slow/absent x GOMAXPROCS x stream length x close instant) and the recorded histories are validated by TLC against clauses L1-L7 of L4ListenerAbs (exactly-once delivery, intact stream from the first unconsumed byte, closure, goroutine leak).",
    note="scripted listener and connections; free-running goroutines; TLS-terminated fall-through not exercised yet",
    technique="TLA+ model of the listener-wrapper goroutines and buffer pool checked with TLC (safety + liveness); trace validation of the real ListenerWrapper"),
+
+ "C10": dict(level="model_checking", design="5 C10, 4.6",
+   text="TLC enumerates every pool state of a boundary grammar (0..3 upstreams, 1-2 peers each from boundary peer states, connection and failure limits on/off); the real Select of all six policies (random_choose with k=2,3,pool+1) runs on each pool built in-package, repeatedly for the random ones, and TLC judges every observed result against Allowed(policy,pool) of L4LB (available iff one exists; first = earliest; least_conn = fewest connections; never a panic). The round_robin counter is model-checked (RRInv) over all selection sequences interleaved with availability flips (3-4 upstreams), every sequence is replayed on one real RoundRobinSelection / IPHashSelection instance and must equal the model (round_robin) or satisfy determinism and stability under upstream removal (ip_hash), judged by TLC.",
+   note="pool states are constructed white-box through an overlay accessor; pools above 3 upstreams / 5 in sequences are not enumerated",
+   technique="TLA+ contract of the selection policies; TLC-enumerated pool states and selection sequences replayed on the real policies; trace validation"),
 }
 NA = {
 }
